@@ -376,6 +376,7 @@ class DataLinkConnection(TransmissionControlObject):
         self.acks_recvd = 0  # received acknowledgements
         self.recv_confs = 0  # outstanding receive confirmations
         self.send_token = threading.Condition(self.lock)
+        self.accepted = []  # accepted but not yet registered sockets
         self.recv_buf = recv_win
         self.recv_win = recv_win  # RW(Local)
         self.recv_cnt = 0         # V(R)
@@ -457,6 +458,9 @@ class DataLinkConnection(TransmissionControlObject):
                 send_pdu.miu, send_pdu.rw = dlc.recv_miu, dlc.recv_win
                 log.debug("accepting CONNECT from SAP %d" % dlc.peer)
                 dlc.state.ESTABLISHED = True
+                # Until the new socket is registered at the service
+                # access point the listening socket receives its PDUs.
+                self.accepted.append(dlc)
                 self.send_queue.append(send_pdu)
                 return dlc
             else:  # pragma: no cover
@@ -634,6 +638,13 @@ class DataLinkConnection(TransmissionControlObject):
                 log.warning("full backlog on listening socket")
                 self.send_queue.append(pdu.DisconnectedMode(
                     rcvd_pdu.ssap, rcvd_pdu.dsap, reason=0x20))
+
+        elif self.state.LISTEN:
+            # pass on to a connection that was just accepted
+            for dlc in list(self.accepted):
+                if dlc.peer == rcvd_pdu.ssap:
+                    dlc.enqueue(rcvd_pdu)
+                    break
 
         elif self.state.CONNECT and rcvd_pdu.name in ("CC", "DM"):
             with self.lock:
